@@ -15,6 +15,7 @@ inductive Ev
   | rd (t : Option Nat)                 -- a read is started with this time-out (`none` = never)
   | wr (ping : Bool) (terminal : Bool)  -- a write starts; it carries a PINGREQ / it is a DISCONNECT on its own
   | wrOk | wrFail | wrAbort             -- the write ends: ok, try_again (also a session refresh), operation_aborted
+  | wrFatal                             -- the write ends with no_recovery: the sender cancels the client
   | stop                                -- `cancel()` / a finished `async_disconnect`: the client is closed
   | eol                                 -- the execution context ran out of ready handlers
   deriving Repr, DecidableEq, Inhabited
@@ -70,6 +71,7 @@ def step (s : S) : Ev → Option S
       | .idle => some { s with writing := false, inBatch := false, queued := false }
       | _ => some (arm { s with writing := false })
   | .wrAbort => if s.writing && s.phase = .idle then some { s with writing := false, inBatch := false } else none   -- only a closed client has its write aborted
+  | .wrFatal => if s.writing then some { s with writing := false, phase := .idle, queued := false, inBatch := false } else none
   | .stop => some { s with phase := .idle, queued := false, inBatch := false }
   | .eol => if s.queued && !s.writing then none else some s
 
@@ -120,6 +122,7 @@ def obsStep (o : Obs) : Ev → Obs
   | .wrOk => if o.batchPing then { o with writing := false, batchPing := false }.reset else { o with writing := false }
   | .wrFail => { o with writing := false, batchPing := false }.reset
   | .wrAbort => { o with writing := false, batchPing := false }
+  | .wrFatal => { o with writing := false, batchPing := false, running := false }
   | .stop => { o with running := false, batchPing := false }
   | .eol => o
 
